@@ -1,5 +1,7 @@
 """C01 FEB words behave as atomic full/empty cells.  Model: coq/theories/Feb/Model.v, spec coq/theories/Cell/Spec.v (mode M2)."""
 from . import _feb_common as fc
+from . import _hashmap
+from . import _feb_free as fr          # extension D: free-running tier (M4)
 
 LEVEL = "proof"
 
@@ -27,7 +29,17 @@ def run(ctx):
                         "exercised on 2x1, 2x2, 1x2, 3x1 configurations but not proved)",
                         "micro-step layer (Feb/Micro.v): two tasks on one word; replayed on the real code with a targeted baton (the first "
                         "call is held after its k-th qt_hash_unlock, 3 shepherds x 1 worker); plain word accesses are not interposed"]
+    _hashmap.run_tier(ctx, quick)      # qt_hash (src/hashmap.c): theorems + M1 tie, see _hashmap.py
+    # extension D (M4): free-running programs, logged histories judged by the acceptor extracted from Feb/History.v
+    ctx.coq_properties("Properties/Properties_C02_hist.v")
+    fr.run_free(ctx, quick, prop_words="C01")
 
 
 def replay(ctx, path):
+    import json
+    j = json.load(open(path))
+    if str(j.get("signature", "")).startswith("hashmap") and j.get("replay", {}).get("script"):
+        return _hashmap.replay_script(ctx, j["replay"]["script"])
+    if fr.is_free_replay(path):
+        return fr.replay_file(ctx, path)
     fc.replay_file(ctx, path)
